@@ -285,6 +285,8 @@ impl BDF {
 
         // set when an attempt with the minimal step size fails, cleared by every accepted step
         let mut failed_at_hmin = false;
+        // whether the Jacobian has been evaluated during the attempts at the current step
+        let mut jac_is_current = false;
 
         'main_loop: loop {
             if steps.total >= nmax {
@@ -472,6 +474,16 @@ impl BDF {
                 iters += 1;
             }
             if !converged {
+                // A Jacobian from an earlier step is the likelier culprit than the step size:
+                // refresh it and repeat the attempt with the same step before halving
+                if !jac_is_current {
+                    f.jac(x_new, &y_predict, &mut jac);
+                    evals.jac += 1;
+                    jac_is_current = true;
+                    lu_is_current = false;
+                    steps.rejected += 1;
+                    continue;
+                }
                 failed_at_hmin = hmin > 0.0 && h_try <= hmin;
                 // Always refresh Jacobian on Newton failure to handle discontinuities
                 f.jac(x_new, &y_predict, &mut jac);
@@ -519,6 +531,7 @@ impl BDF {
 
             steps.accepted += 1;
             failed_at_hmin = false;
+            jac_is_current = false;
             n_equal_steps += 1;
             x = x_new;
             y.copy_from_slice(&y_new);
